@@ -322,7 +322,10 @@ func c08MakeWorkload(seed int64, idx int, H int) *c08Workload {
 		var ch []*types.AccountData
 		for i, a := range w.Addrs {
 			// block 0 writes every account; block h writes accounts i with (i+h+idx)%2==0 (at least two)
-			if h != 0 && (i+h+idx)%2 != 0 {
+			// (the two candidate accounts are written by EVERY block from their registration on: an update of a candidate that is
+			// already in context.data is a code path of its own — CandidateCache.Set rewrites a fixed slot in place)
+			isCand := (i == 0 && h >= 1) || (i == 2 && h >= 2)
+			if h != 0 && (i+h+idx)%2 != 0 && !isCand {
 				continue
 			}
 			acc := &types.AccountData{
